@@ -45,6 +45,8 @@ InitState ==
     stale |-> [s \in Sid |-> 0],   \* ghost: how many vectors registered on this (still used) storage have died: the
                            \* registry's dead weak references.  They never count - but histories with 0, 1, 2 ...
                            \* dead sharers are different histories of the tracker and must all be explored
+    shareable |-> {},      \* ghost: identities that came into being as caller-supplied tuples (while still in use): the only
+                           \* storage two live vectors may legitimately share (C15)
     uown |-> {},           \* ghost: vectors the program created as standalone objects (never a table's)
     everobs |-> {},        \* ghost: <<object, family>> pairs: a read-only operation of that family has been applied to the
                            \* object before (keeps apart the histories in which an implementation might have cached something)
@@ -100,6 +102,7 @@ Settle(S0) ==
         !.fpv = [o \in Obj |-> IF o \in L THEN S0.fpv[o] ELSE NoMemo],
         !.fpt = [t \in Tab |-> IF t \in L THEN S0.fpt[t] ELSE NoMemo],
         !.cmap = [t \in Tab |-> IF t \in L THEN S0.cmap[t] ELSE <<>>],
+        !.shareable = S0.shareable \cap used,
         !.uown = S0.uown \cap L,
         !.everfp = S0.everfp \cap L,
         !.everobs = {p \in S0.everobs : p[1] \in L} ]
@@ -124,6 +127,7 @@ NewVec(S, vals, fromTuple, s) ==
   LET o == SetMin(DeadObjs(S)) IN
   Out([S EXCEPT !.live = @ \cup {o}, !.held[o] = TRUE, !.store[o] = s, !.heap[s] = vals,
                 !.usertup = IF fromTuple THEN @ \cup {s} ELSE @,
+                !.shareable = IF fromTuple THEN @ \cup {s} ELSE @,
                 !.kind[o] = KindOfVals(vals), !.nullable[o] = NullOfVals(vals),
                 !.uown = @ \cup {o}, !.reg = Register(S.reg, o, s)], "Ok")
 
@@ -143,13 +147,15 @@ CopyVec(S, src, s) ==
                 !.kind[o] = S.kind[src], !.nullable[o] = S.nullable[src], !.name[o] = S.name[src],
                 !.uown = @ \cup {o}, !.reg = Register(S.reg, o, s)], "Ok")
 
-(* w = v << []  (also v << Vector([])): CPython returns the SAME tuple for t + (), so the result is a
-   new vector over v's own storage - sharing that does not come from a caller-supplied tuple        *)
-ConcatEmpty(S, src) ==
-  LET o == SetMin(DeadObjs(S)) IN
-  Out([S EXCEPT !.live = @ \cup {o}, !.held[o] = TRUE, !.store[o] = S.store[src],
+(* w = v << []  (also v << Vector([]), [] << v): an operation result like any other - a new vector on FRESH storage.
+   (CPython returns the SAME tuple for t + (); the pinned tree built the result over v's own tuple, so the result
+   was refused a write while v lived.  Deviation "ConcatShares" keeps that behaviour.)                              *)
+ConcatEmpty(S, src, s) ==
+  LET o == SetMin(DeadObjs(S))
+      st == IF "ConcatShares" \in Devs THEN S.store[src] ELSE s IN
+  Out([S EXCEPT !.live = @ \cup {o}, !.held[o] = TRUE, !.store[o] = st, !.heap[st] = Contents(S, src),
                 !.kind[o] = S.kind[src], !.nullable[o] = S.nullable[src],
-                !.uown = @ \cup {o}, !.reg = Register(S.reg, o, S.store[src])], "Ok")
+                !.uown = @ \cup {o}, !.reg = Register(S.reg, o, st)], "Ok")
 
 Drop(S, o) == Out([S EXCEPT !.held[o] = FALSE], "Ok")
 
@@ -171,6 +177,16 @@ WriteVec(S, o, i, x, s) ==
                      !.reg = Register(reg1, o, s),
                      !.fpv[o] = IF "VecFpNotInvalidated" \in Devs THEN @ ELSE NoMemo,
                      !.fpt = fpt1], "Ok")
+
+(* a write that addresses NO position (v[3:1] = x, v[2:2] = [], an all-False mask, an empty index list, t[3:1, name] = x):
+   the alias check comes first (shared storage: refused); otherwise nothing observable changes - same contents, length
+   and dtype - while the implementation still swaps in a fresh equal tuple, drops the memo and re-registers        *)
+WriteNone(S, o, s) ==
+  IF ~Writable(S, o) THEN Same(S, "Refused")
+  ELSE LET old == S.store[o] IN
+       Out([S EXCEPT !.store[o] = s, !.heap[s] = Contents(S, o),
+                     !.reg = Register(Unregister(S.reg, o, old), o, s),
+                     !.fpv[o] = NoMemo], "Ok")
 
 (* t[r] = row  /  t[r, :] = row : one write per column, ALL OR NOTHING - if any column cannot be written
    (its storage is shared) the call is refused and no column changes (C01, C08)                      *)
@@ -320,6 +336,9 @@ OwnershipDisjoint(S) ==
   /\ \A t \in LiveTab(S) : ColumnsOf(S, t) \cap S.uown = {}          \* a table never holds the program's own vector
   /\ \A t, u \in LiveTab(S) : t # u => ColumnsOf(S, t) \cap ColumnsOf(S, u) = {}
   /\ \A t \in LiveTab(S) : \A i, j \in 1..Len(S.cols[t]) : i # j => S.cols[t][i] # S.cols[t][j]
+(* C15: two live vectors share storage only over a tuple the caller supplied; operation results, copies, slices and
+   table columns never share (so they are always writable) *)
+SharingJustified(S) == \A a, b \in LiveVec(S) : (a # b /\ S.store[a] = S.store[b]) => S.store[a] \in S.shareable
 Rect(S) == \A t \in LiveTab(S) : \A i \in 1..Len(S.cols[t]) : Len(Contents(S, S.cols[t][i])) = S.tlen[t]
 FpCoherent(S) ==
   /\ \A o \in LiveVec(S) : S.fpv[o] # NoMemo => S.fpv[o][1] = Contents(S, o)
